@@ -483,4 +483,54 @@ theorem noise_int_kept_rng_counterexample :
     scanRows (noiseIntRow 0 9) (C05.normInt 1) [[.num 0, .num 0]]
       ≠ scanRows (noiseIntRow 0 9) (noiseIntRow 0 9 (C05.normInt 1) [.num 0, .num 0]).1 [[.num 0, .num 0]] := by decide +kernel
 
+/-! ## Phase 6: what runs when a read is abandoned (the generator is closed while suspended at a `yield`) -/
+
+/-- translator obligation: every `try` / `with` statement around a `yield` in the anchored files (read from the CURRENT source) is a row
+of the model's `abandonTable`; none of them has a `finally` or a handler that catches `GeneratorExit`, every `with` manager only
+releases a resource; the `try` around the fill loop of `pipes.Cache.filter` runs nothing when the generator is closed -/
+theorem abandon_table_matches_source :
+    Generated.abandonRows = abandonTable.map TryRow.tuple ∧
+    (Generated.abandonRows.all (fun t => (TryRow.mk t.1 t.2.1 t.2.2.1 t.2.2.2.1 t.2.2.2.2).silent)) = true ∧
+    cacheExitAct Generated.cacheFillHandlers = .nothing ∧ Generated.cacheFillFinally = false := abandon_table_matches_source'
+
+/-- `abandonObsAllowed` (what the driver answers when the harness reports a source line that ran while a dropped read was closed):
+every row is silent; for a row's function the tested `except` line / the left `with` line is allowed; a line inside a handler or
+`finally` body, or any other line, never is; and nothing is allowed for a function outside the table -/
+theorem abandon_table_sound :
+    (∀ r ∈ abandonTable, r.silent = true ∧ r.runsOnAbandon = false) ∧
+    (∀ r ∈ abandonTable, r.kind = "try" → abandonObsAllowed r.file r.fn "header" = true) ∧
+    (∀ r ∈ abandonTable, r.kind = "with" → abandonObsAllowed r.file r.fn "with" = true) ∧
+    (∀ (file fn kind : String), kind ≠ "header" → kind ≠ "with" → abandonObsAllowed file fn kind = false) ∧
+    (∀ (file fn kind : String), (∀ r ∈ abandonTable, r.fn ≠ fn) → abandonObsAllowed file fn kind = false) := abandon_table_sound'
+
+example : abandonObsAllowed "coba/pipes/filters.py" "Cache.filter" "header" = true ∧ abandonObsAllowed "coba/pipes/filters.py" "Cache.filter" "body" = false ∧
+    abandonObsAllowed "coba/environments/filters.py" "Shuffle.filter" "header" = false ∧
+    (TryRow.mk "coba/pipes/filters.py" "Cache.filter" "try" ["BaseException"] false).runsOnAbandon = true ∧
+    (TryRow.mk "coba/environments/filters.py" "Shuffle.filter" "try" [] true).runsOnAbandon = true := by decide
+
+/-- with the handlers the source has, the session with an explicit exit action IS the cache case of `nodeStep`
+(the step all the re-read theorems are about), for every state, upstream and demand -/
+theorem cache_session_is_nodeStep (sz : Option Nat) (prot : Bool) (st : CacheSt) (u : List Item) (d : Demand) :
+    (nodeStep (.cache sz prot st) u d).1 = .cache sz prot (cacheSessX (cacheExitAct Generated.cacheFillHandlers) sz u st d) :=
+  cache_session_is_nodeStep' sz prot st u d
+
+/-- ∀ histories of sessions on one `pipes.Cache` (complete, abandoned after any k, never started), any slice size, any upstream:
+whether closing the generator runs nothing (the source) or the handler's reset (a handler that also catches `GeneratorExit`), the
+buffer invariant `_cache ++ rest(_iter) = upstream` holds afterwards and the next read delivers the upstream sequence -/
+theorem cache_abandon_history (x : ExitAct) (hx : x ≠ .dropIter) (sz : Option Nat) (prot : Bool) (u : List Item)
+    (ds : List Demand) (st : CacheSt) (h : CacheOK u st) :
+    CacheOK u (ds.foldl (cacheSessX x sz u) st) ∧ nodeView (.cache sz prot (ds.foldl (cacheSessX x sz u) st)) u = u :=
+  cache_abandon_history' x hx sz prot u ds st h
+
+example : CacheOK [1, 2, 3] .unread ∧ CacheOK [1, 2, 3] (.prog [1, 2] [3]) := ⟨trivial, rfl⟩
+
+/-- the hypothesis `x ≠ .dropIter` is forced: a `finally: self._iter = None` around the fill loop makes ONE abandoned read leave a
+truncated cache ([1,2] of [1,2,3], slices of 2) that every later read serves; the source's code keeps delivering [1,2,3] -/
+theorem cache_finally_counterexample :
+    cacheSessX .dropIter (some 2) [1, 2, 3] .unread (.pull 1) = .done [1, 2] ∧
+    nodeView (.cache (some 2) false (cacheSessX .dropIter (some 2) [1, 2, 3] .unread (.pull 1))) [1, 2, 3] = [1, 2] ∧
+    nodeView (.cache (some 2) false (cacheSessX .nothing (some 2) [1, 2, 3] .unread (.pull 1))) [1, 2, 3] = [1, 2, 3] :=
+  cache_finally_counterexample'
+
+
 end Coba.C04
